@@ -101,6 +101,7 @@ fn profile(prop: &str, tier: Tier, rng: &mut Rng) -> Profile {
             p.s_bank = 6;
         }
         "C03" => {
+            p.s_migrate = 4;
             p.reply = 90;
             p.fail = 18;
             p.sweep = 25;
@@ -467,7 +468,11 @@ impl<'a> Gen<'a> {
         match self.rng.weighted(&w) {
             0 => MsgSpec::Exec { target: self.target_contract(), node: Box::new(self.node(depth + 1)), funds: self.funds() },
             1 => self.inst(depth),
-            2 => MsgSpec::Migrate { target: self.target_contract(), code: self.rng.below(self.n_codes as u64 + 1) as u32, node: Box::new(self.node(depth + 1)) },
+            2 => {
+                // self-migration (a contract that is its own admin) is a rare but legal shape
+                let target = if depth > 0 && self.rng.chance(2, 5) { Target::SelfAddr } else { self.target_contract() };
+                MsgSpec::Migrate { target, code: self.rng.below(self.n_codes as u64 + 1) as u32, node: Box::new(self.node(depth + 1)) }
+            }
             3 => {
                 if self.rng.chance(1, 3) {
                     MsgSpec::ClearAdmin { target: self.target_contract() }
@@ -704,9 +709,11 @@ fn gen_case(rng: &mut Rng, cfg: &Cfg) -> Case {
         let nid = g.next_nid();
         let node = Node { nid, bind: Some(slot), writes: vec![WriteOp::Set { k: KeySpec::Lit(b"init".to_vec()), v: format!("init{}", slot).into_bytes() }], ..Default::default() };
         let code = if i < 2 { first_code } else { g.rng.below(g.n_codes as u64) as u32 };
-        let admin = match g.rng.below(4) {
+        let admin = match g.rng.below(5) {
             0 => None,
             1 if i > 0 => Some(Target::Contract(0)),
+            // its own admin
+            4 => Some(Target::Contract(slot)),
             _ => Some(if g.admin_bias { Target::Account(0) } else { Target::Account(g.rng.below(n_accounts as u64) as u32) }),
         };
         let funds = if g.rng.chance(1, 2) { vec![CoinSpec { denom: 0, amt: Amt::Abs(g.rng.range(1, 40)) }] } else { vec![] };
